@@ -322,7 +322,10 @@ def _safe(f, *a):
 
 
 class Interp(object):
-    def __init__(self, mem=None, max_steps=20000, wide=True, time=1.0):
+    def __init__(self, mem=None, max_steps=20000, wide=True, time=1.0, quirks=()):
+        # `quirks` switches on *defect models* (never used for the verdict, only to name the mechanism of a mismatch):
+        #   "mod_residue": a MOD b computed as sign(a) * fmod(|a| + 1e-14, b)
+        self.quirks = frozenset(quirks)
         self.mem = mem if mem is not None else {}
         self.max_steps = max_steps
         self.wide = wide
@@ -805,6 +808,8 @@ class Interp(object):
             x, y = exact_int(a, "MOD"), exact_int(b, "MOD")
             if x < 0 or y <= 0:
                 raise Unspecified("MOD of negative operand or zero divisor")
+            if "mod_residue" in self.quirks:
+                return Num(math.fmod(x + 1e-14, y) if x != 0 else 0.0)
             return Num(float(x % y))
         x, y = exact_int(a, op.upper()), exact_int(b, op.upper())
         r = x & y if op == "and" else (x | y if op == "or" else x ^ y)
